@@ -208,9 +208,15 @@ func checkWorld(c *vh.Ctx, w *World, stratum string) {
 	c.Max("policies_per_world", len(pols))
 	sampled := false
 
+	evaluated := 0
 	for _, n := range w.NS {
 		if len(n.Workloads) == 0 {
 			continue
+		}
+		// the unit of evaluation (and of distinct_nontrivial) is one namespace policy set; the
+		// enclosing Case (one world = one server) already counted one
+		if evaluated++; evaluated > 1 {
+			c.AddEvaluations(1)
 		}
 		c.Count("policy_sets", 1)
 		nontrivial := false
